@@ -27,14 +27,15 @@ TEXT = {
                    "(incl. 65535/65536/65537, bursts of small writes, an oversized write followed at once by small ones), delays of 0-3 ms "
                    "and idle gaps > 100 ms, a per-request response plan (empty / partial / 65536 bytes; hold time so that writes arrive "
                    "while a request is in flight; Content-Length, chunked, Connection: close), reader buffer sizes 0 .. 100000 with "
-                   "pauses, front on/off, and Close gracefully, right after the last Write, concurrently with a Write, at start, or "
-                   "while writer and worker are blocked by back-pressure. Checked: the request bodies in arrival order are exactly "
+                   "pauses, front on/off, and Close gracefully, right after the last Write, concurrently with a Write, at start, "
+                   "while writer and worker are blocked by back-pressure (reader resuming / draining afterwards / not reading at all), or "
+                   "while the server answers every request with data without end and Read keeps draining. Checked: the request bodies in arrival order are exactly "
                    "the bytes handed to Write (content at every request, never more than handed over, caught up before a graceful "
                    "Close), the bytes returned by Read are exactly the response bodies in order, no body > 65536, one non-empty "
                    "X-Session-Id per connection and no two connections sharing one, in-flight intervals never overlap, no operation "
                    "fails while the connection is open, after Close: Write fails, Read fails after draining and does not block, "
-                   "a Write in progress returns, the request counter stops (two 300 ms windows, then watched for 1.3 x the maximum "
-                   "poll interval). Absence of violations beyond the explored scenarios and schedules is not established."),
+                   "a Write in progress returns (also when nobody reads), at most 200 requests arrive after Close returned, the request "
+                   "counter stops (two 300 ms windows, then watched for 1.3 x the maximum poll interval). Absence of violations beyond the explored scenarios and schedules is not established."),
     "level_note": ("Trusted: Go's net/http (server and client transport) over net.Pipe, the Go scheduler as the source of interleavings "
                    "(sampled, not enumerated; a failing schedule may not replay, the complete history is printed). Liveness verdicts "
                    "are bounded waiting with a bound of 4 x the client's maximum poll interval (20 s), never 'was not fast enough'. "
